@@ -103,7 +103,7 @@ static unsigned int assemble_imm(struct instr *instruc, unsigned char ptr[]) {
   if (instruc->reduced_imm || instruc->keyword.is_byte)
     return ptr_pos;
   // get the register size for the first operand
-  unsigned int opd0_mode = instruc->opd[0].reg & MODE_MASK;
+  unsigned int opd0_mode = opd0_width_mode(instruc);
   // zero padding is required rarely.
   bool zero_pad =
       ((type != CONTROL_FLOW &&       // it must not be CONTROL_FLOW
